@@ -221,7 +221,9 @@ static int reads_after_end;	/* calls of read_token after it has signalled the en
 static int cb_read_token (void **attr)
 {
   if (cur_tok > n_toks) reads_after_end++;
-  if (cur_tok >= n_toks) { *attr = NULL; cur_tok = n_toks + 1; return eof_value; }
+  /* at the end of input the reader leaves a stale attribute behind: the library must not take it for the
+     attribute of the end marker (which is NULL) */
+  if (cur_tok >= n_toks) { *attr = (void *) (uintptr_t) (ATTR_BASE + 77000000u); cur_tok = n_toks + 1; return eof_value; }
   *attr = (void *) (uintptr_t) (ATTR_BASE + cur_tok);
   return tok_codes[cur_tok++];
 }
